@@ -339,3 +339,17 @@ Proof.
     { unfold root_top. rewrite En, Hroot, Ek. reflexivity. }
     destruct (run_shape g c orc (S f) input (RList (a :: l)) Hrt2 Hrun eq_refl) as [t E]. discriminate.
 Qed.
+
+Lemma wf_boundary_refuted :
+  exists g c orc fuel input t rest,
+    wfg g 24 = true /\ nosep g = false /\ eof_ok g = true /\
+    run g c orc false fuel input = Parsed (RTree (NT (g_top g) (t :: rest))) /\ wf_tree t = false.
+Proof.
+  exists g_trailsep, c_default, (fun _ _ => None), 50, [120;44;98]%N.
+  eexists. eexists. vm_compute. repeat split.
+Qed.
+
+Lemma run_wf_nonvacuous :
+  wfg g_items 24 = true /\ nosep g_items = true /\ eof_ok g_items = true /\
+  accepts (run g_items c_default (orc_of t_items) false 60 in_items) = true.
+Proof. vm_compute. repeat split. Qed.
